@@ -68,18 +68,19 @@ Lemma guard_b_sound : forall s o, Inv s -> guard_b s o = true -> guard s o.
 Proof.
   intros s o HI H. destruct o as [pkg n parent|c n q k|o np nn|c bs|]; cbn [guard guard_b] in *; try exact I.
   - (* AddModule *)
-    apply andb_true_iff in H. destruct H as [H1 H2]. destruct parent as [q|]; cbn [guard_add_module child_key] in *.
+    apply andb_true_iff in H. destruct H as [H1 H2].
+    assert (Hrep : forall first, (ocls_eqb (ocl (store s first)) CPackage && negb pkg) ||
+                                 (is_module (ocl (store s first)) && covered_b s first) = true -> replace_ok s pkg first).
+    { intros first Hb. unfold replace_ok. destruct (ocls_eqb (ocl (store s first)) CPackage && negb pkg) eqn:Ec.
+      - left. apply andb_true_iff in Ec. destruct Ec as [G1 G2].
+        apply ocls_eqb_eq in G1. split; [exact G1 | destruct pkg; [discriminate | reflexivity]].
+      - right. cbn [orb] in Hb. apply andb_true_iff in Hb. destruct Hb as [G1 G2].
+        split; [exact G1|]. split; [reflexivity | apply covered_b_sound; assumption]. }
+    destruct parent as [q|]; cbn [guard_add_module child_key] in *.
     + apply andb_true_iff in H1. destruct H1 as [Hq Hqp]. apply ocls_eqb_eq in Hqp.
       split; [apply registered_reg; assumption | split; [exact Hqp|]].
-      intros pq first Hpq Hf. rewrite Hpq in H2. rewrite Hf in H2.
-      destruct (ocls_eqb (ocl (store s first)) CPackage && negb pkg) eqn:Ec.
-      * left. apply andb_true_iff in Ec. destruct Ec as [G1 G2].
-        apply ocls_eqb_eq in G1. split; [exact G1 | destruct pkg; [discriminate | reflexivity]].
-      * right. cbn [orb] in H2. repeat (apply andb_true_iff in H2; destruct H2 as [H2 ?]).
-        split; [exact H2|]. split; [reflexivity|]. split; [apply mem_id_in; assumption | apply covered_b_sound; assumption].
-    + destruct (rget [n] (allobj s)) as [first|] eqn:Ef; [|left; reflexivity].
-      right. exists first. rewrite orb_false_r in H2. apply andb_true_iff in H2. destruct H2 as [G1 G2]. apply ocls_eqb_eq in G1.
-      split; [reflexivity | split; [exact G1 | destruct pkg; [discriminate | reflexivity]]].
+      intros pq first Hpq Hf. rewrite Hpq in H2. rewrite Hf in H2. apply Hrep. exact H2.
+    + intros first Hf. rewrite Hf in H2. apply Hrep. exact H2.
   - (* AddChild *)
     repeat (apply andb_true_iff in H; destruct H as [H ?]).
     unfold guard_add_child. split; [destruct (is_module c); [discriminate | reflexivity]|].
